@@ -164,3 +164,4 @@ NOT_READY = False
 LEVEL_TEXT = "Proof (BaseNode/Node, BinaryNode and DAGNode stores). `assertions` is a parameter of every modelled setter. C20.assertions_off_same: an operation accepted with the checks on gives the identical store and outcome with the checks off; assertions_off_same_run: lifted to whole histories (trace and final store); off_only_removes_rejections; guards_pure: decided by the kernel on the guard skeleton that harness/tables.py re-extracts from /repo's source on every run - every `if ASSERTIONS:` block consists only of bare calls whose name contains 'check' (no other statement, no else), ASSERTIONS is read nowhere else in the package, the check functions store to nothing non-local and call no mutator on non-locals, and the guarded sites are exactly the six modelled setters. Tie: the same accepted histories are run in TWO interpreter processes (BIGTREE_CONF_ASSERTIONS unset / empty), outcome and store after every call are compared with each other and with the model at assertions=true/false, then a battery of readers (derived queries, all iterators, go_to, exports, searches) on the final objects of both processes must agree."
 LEVEL_NOTE = "'Every library function gives the same result' rests on guards_pure (the flag is read only in pure guard blocks of the six setters) plus the two-process reader battery; the library functions themselves are not re-proved per flag value. With the checks off only guard-accepted arguments are in the domain of the claim."
 TECHNIQUE = 'Lean 4 proof on the parameterised setters + kernel-decided obligations over a table regenerated from source + two-process differential run'
+RULE = RULE + " Fourth session: refusal probes in the reader battery (prune_tree / get_subtree / find_relative_path / shift_nodes on something missing); failing library calls (op F) inside the accepted histories' candidates are dropped like any refused call."
